@@ -200,6 +200,43 @@ claim("C04",
       "ill-conditioning are numerical and not decided.",
       _KERNEL_NOTE, "DESIGN.md 2.2, 3 (C04)")
 
+claim("C12",
+      "computer algebra on extracted recurrence stencils (shift invariance, cancellation lint), sibling comparison of the written-out x/y/z passes, closure of literal tables",
+      "From the stencils extracted for every recursion kernel: each start value and coefficient is invariant under a common shift of all centres "
+      "(shell centres, point charges, moment origin) - by induction every table entry is translation invariant in exact arithmetic - and no "
+      "sum cancels terms quadratic in absolute positions (a floating-point translation lint). The written-out x, y and z passes of the one- "
+      "and two-electron recursions have identical signatures (offsets relative to the incremented axis, coefficients with the component "
+      "made generic, each pass using a single component): mutual consistency rather than conformance, so this check fires only when "
+      "covariance under axis permutations itself is broken. The separable kernels never single out a component; the literal order tables of "
+      "kinetic energy, momentum, density gradient and Laplacian are closed/equivariant under the six coordinate permutations; both "
+      "evaluation back-ends depend on point minus centre only; the angular momentum's moments are about the literal origin. Reflections, "
+      "general rotations, the representation matrices of spherical shells and all numerical equalities are not decided.",
+      _KERNEL_NOTE, "DESIGN.md 2.2, 3 (C12)")
+
+claim("C13",
+      "normal-form analysis of the kernels' symbolic return values (multilinearity), axis-use discipline lint (KSEP), assembly typing",
+      "For all nine kernel runs (both orientations / dispatch branches included) the symbolic return value contains each shell's coefficient "
+      "matrix exactly once, inside the contraction over that shell's own primitive axis with exponent-only factors, and the segment axis of "
+      "each shell is the free index directly before its component axis: blocks are multilinear in the coefficients and a generalized shell "
+      "is the union of its columns in order. No primitive axis is ever indexed, sliced or partially reduced (events logged by the "
+      "evaluator), the screening uses exponents through min() only, the evaluation back-ends use the coefficients once in "
+      "tensordot(...,(0,0)) and only broadcast the exponents: invariance under reordering and splitting primitives. The contraction norm "
+      "is the -1/2 power of the shell's own overlap diagonal (degree-0 homogeneity in each column); assembly applies it once per index "
+      "before the spherical transform and flattens segment-major. Scale invariance over 12 orders of magnitude as a floating-point "
+      "statement is not decided.",
+      _KERNEL_NOTE, "DESIGN.md 3 (C13)")
+
+claim("C16",
+      "axis-provenance typing of all kernels and assemblies + closed-form sibling comparison (STRUCTURAL PREMISE ONLY)",
+      "Only the structural premise of the property is decided: both halves of the library obtain primitive norms, component order, contraction "
+      "norms and the Cartesian->spherical matrix from the same shell API and apply them identically - all nine integral-kernel runs are "
+      "well-typed with type K (a wrong shell's attribute in a slot is a provenance mismatch), both evaluation back-ends receive the "
+      "shell's own attributes in matching slots, the one-index and two-index assemblies satisfy the same per-index contract A, and "
+      "norm_prim_cart is symbolically the closed form that the one-/two-electron kernels apply in two pieces. The quadrature statement "
+      "itself (numerical agreement of integrated evaluations with the analytic integrals) is NOT decided by this family; changes that "
+      "break it through a wrong recurrence coefficient are the business of C01/C02/C07.",
+      _KERNEL_NOTE, "DESIGN.md 3 (C16), 4")
+
 na("C10", "quantifies over the numerical values of the transformation matrices (harmonicity, orthonormality, phases for every l<=10); "
           "no clause is visible in the shape of the code - deciding it means computing the matrices, which is not static analysis")
 na("C17", "positive semi-definiteness and Schwarz inequalities are numerical consequences of exact integrals; no structural clause exists")
